@@ -74,6 +74,27 @@ def run(ctx):
     led.ok("C20.syntax", "feature census", "cvss/", "%d AST nodes in %d modules against %d features" % (n_nodes, len(ctx.repo.modules), len(PC.FEATURES)))
     # ---- names / methods
     n_calls = 0
+
+    def shadowed(m, n, ident):
+        """the identifier is bound by the package itself at this point (import, def, assignment,
+        parameter): it is then not the builtin of that name"""
+        if ident in m.imports or ident in m.assigns or ident in m.functions or ident in m.classes:
+            return True
+        for a in m.ancestors(n):
+            if isinstance(a, (ast.FunctionDef, ast.Lambda)):
+                args = a.args
+                if any(x.arg == ident for x in args.args + args.kwonlyargs + ([args.vararg] if args.vararg else []) + ([args.kwarg] if args.kwarg else [])):
+                    return True
+                if isinstance(a, ast.FunctionDef):
+                    for x in ast.walk(a):
+                        if isinstance(x, ast.Name) and isinstance(x.ctx, ast.Store) and x.id == ident:
+                            return True
+                        if isinstance(x, (ast.Import, ast.ImportFrom)) and any((al.asname or al.name.split(".")[0]) == ident for al in x.names):
+                            return True
+                        if isinstance(x, ast.FunctionDef) and x is not a and x.name == ident:
+                            return True
+        return False
+
     for name, m in sorted(ctx.repo.modules.items()):
         for n in ast.walk(m.tree):
             if isinstance(n, ast.Attribute) and n.attr in PC.NEW_APIS and PC.NEW_APIS[n.attr] is not None:
@@ -88,13 +109,13 @@ def run(ctx):
                     )
             if isinstance(n, ast.Call) and isinstance(n.func, ast.Name):
                 n_calls += 1
-                if n.func.id in PC.PY3_ONLY_BUILTINS and n.func.id != "exec":
+                if n.func.id in PC.PY3_ONLY_BUILTINS and n.func.id != "exec" and not shadowed(m, n, n.func.id):
                     first = PC.PY3_ONLY_BUILTINS[n.func.id]
                     if py2 or first > py3min:
                         led.violation("C20.names", "%s::%s" % (name, short(n)), m.where(n), "builtin %s exists only from Python %d.%d" % ((n.func.id,) + first))
                 if n.func.id == "print" and any(kw.arg == "flush" for kw in n.keywords) and py2:
                     led.violation("C20.names", "%s::%s" % (name, short(n)), m.where(n), "print(flush=...) is not available on Python 2.7")
-            if isinstance(n, ast.Name) and isinstance(n.ctx, ast.Load) and n.id in PC.PY2_ONLY_BUILTINS:
+            if isinstance(n, ast.Name) and isinstance(n.ctx, ast.Load) and n.id in PC.PY2_ONLY_BUILTINS and not shadowed(m, n, n.id):
                 # allowed only inside a try block whose handler catches NameError (fallback idiom)
                 ok = False
                 for a in m.ancestors(n):
@@ -153,30 +174,11 @@ def run(ctx):
                     inside = set(id(x) for x in ast.walk(lc))
                     targets = set(t.id for g in lc.generators for t in ast.walk(g.target) if isinstance(t, ast.Name))
                     for t in sorted(targets):
-                        # harmful only if the outer variable can be read after the comprehension ran:
-                        # a read later in the source, or a read inside the innermost loop that
-                        # also contains the comprehension (next iteration)
-                        loops = [a for a in m.ancestors(lc) if isinstance(a, (ast.For, ast.While)) and m.enclosing_function(a) is f.node]
-                        inner_loop = loops[0] if loops else None
-                        end = getattr(lc, "end_lineno", lc.lineno)
-                        clash = []
-                        for x in ast.walk(f.node):
-                            if not (isinstance(x, ast.Name) and x.id == t and id(x) not in inside and isinstance(x.ctx, ast.Load)):
-                                continue
-                            if m.enclosing_function(x) is not f.node:
-                                continue
-                            rebound = False
-                            for a_ in m.ancestors(x):
-                                if isinstance(a_, (ast.ListComp, ast.GeneratorExp, ast.SetComp, ast.DictComp)) and any(
-                                    isinstance(tt, ast.Name) and tt.id == t for g_ in a_.generators for tt in ast.walk(g_.target)
-                                ):
-                                    rebound = True
-                            if rebound:
-                                continue
-                            later = x.lineno > end
-                            same_loop = inner_loop is not None and any(a is inner_loop for a in m.ancestors(x))
-                            if later or same_loop:
-                                clash.append(x)
+                        # harmful only if the leaked binding reaches a read of the name in this
+                        # function scope before the name is rebound (reaching definitions)
+                        from ..py2scope import reaching_reads
+
+                        clash = reaching_reads(f.node, lc, t)
                         n_calls += 1
                         if clash:
                             led.violation(
